@@ -479,6 +479,8 @@ class Exec:
             return None if c is None else list(enumerate(c, it.start))
         if isinstance(it, set) or isinstance(it, frozenset):
             return sorted(it, key=repr)
+        if hasattr(it, "dims") and isinstance(it.dims, tuple):   # array shape
+            return list(it.dims)
         return None
 
     def symbolic_for(self, n, it):
@@ -823,6 +825,10 @@ class Exec:
         for op, rn in zip(n.ops, n.comparators):
             r = self.expr(rn)
             c = self.compare(op, left, r, n)
+            if isinstance(c, Arr):
+                if len(n.ops) != 1:
+                    raise Unsupported("chained comparison of arrays")
+                return c
             if not is_sym(c) and not c:
                 return False if not res else z3.BoolVal(False)
             if is_sym(c):
